@@ -5,6 +5,8 @@
 import JrsVerif.Proofs.Bind
 import JrsVerif.Model.Eval
 import JrsVerif.Proofs.EvalBind
+import JrsVerif.Proofs.EvalMono
+import JrsVerif.Proofs.EvalSugar
 
 namespace JrsVerif.Bind
 
@@ -404,3 +406,85 @@ theorem interpreter_binding_assignment (ps : List Param) (hnd : (ps.map paramNam
 
 end JrsVerif.EvalBind
 
+
+/-! ### the interpreter assigns at most one outcome to a program (☆ `eval_fuel_mono`) and obeys the
+    documented desugarings.  `Decided r`: `r` is a value or an error, not "undecided" (out of fuel /
+    outside the modelled fragment).  Proved for the WHOLE interpreter `Eval.run` (every `Task`, every
+    construct and builtin), by induction on the fuel (Proofs/EvalMono.lean). -/
+namespace JrsVerif.Eval
+
+/-- ☆ one more unit of fuel changes nothing once the interpreter has an answer: same result (value
+    or error), same store (thunk cells, object cache, trace) -/
+theorem eval_fuel_mono (n : Nat) (t : Task) (s : St) (h : Decided (run n t s)) :
+    run (n + 1) t s = run n t s :=
+  (run_mono n (n + 1) (Nat.le_succ n) t).le s h
+
+/-- … nor does any larger fuel -/
+theorem eval_fuel_mono_le (n m : Nat) (hnm : n ≤ m) (t : Task) (s : St) (h : Decided (run n t s)) :
+    run m t s = run n t s :=
+  (run_mono n m hnm t).le s h
+
+/-- the semantics is a partial FUNCTION: two fuels at which a task is decided give the same result
+    and the same store -/
+theorem eval_deterministic (n m : Nat) (t : Task) (s : St) (hn : Decided (run n t s))
+    (hm : Decided (run m t s)) : run n t s = run m t s := by
+  rcases Nat.le_total n m with h | h
+  · exact (eval_fuel_mono_le n m h t s hn).symm
+  · exact eval_fuel_mono_le m n h t s hm
+
+/-- whole programs: once `evalProgram` returns a JSON value or an error (with its trace), every
+    larger fuel returns the same — the driver's fuel is irrelevant once an answer exists -/
+theorem evalProgram_fuel_mono (n m : Nat) (hnm : n ≤ m) (e : Expr)
+    (h : ∀ w, evalProgram n e ≠ .undecided w) : evalProgram m e = evalProgram n e := by
+  rw [evalProgram_eq, evalProgram_eq] at *
+  rw [(progM_mono n m hnm e).le {} (outcomeOf_decided _ h)]
+
+/-- a program has at most one decided outcome -/
+theorem evalProgram_deterministic (n m : Nat) (e : Expr) (hn : ∀ w, evalProgram n e ≠ .undecided w)
+    (hm : ∀ w, evalProgram m e ≠ .undecided w) : evalProgram n e = evalProgram m e := by
+  rcases Nat.le_total n m with h | h
+  · exact (evalProgram_fuel_mono n m h e hn).symm
+  · exact evalProgram_fuel_mono m n h e hm
+
+/-- the hypothesis is met by a real evaluation -/
+example : Decided (run 2 (.eval ⟨[], none, none⟩ (.ifE .tru (.str "a") none)) {}) := by
+  intro w h
+  simp only [run, pure_bind, expectVal] at h
+  cases h
+
+/-- `e1 != e2` ≡ `!(e1 == e2)`: the same computation (result, store, trace); the desugared form has
+    one more node and needs one more unit of fuel -/
+theorem ne_desugar (n : Nat) (c : Ctx) (a b : Expr) :
+    run (n + 2) (.eval c (.unary .not (.binary .eq a b))) = run (n + 1) (.eval c (.binary .ne a b)) :=
+  run_ne_desugar n c a b
+
+/-- … hence, independent of fuel: both forms have the same decided outcomes from every store -/
+theorem ne_desugar_outcome (c : Ctx) (a b : Expr) (s : St) (r : Except Stop Out × St) (hr : Decided r) :
+    (∃ n, run n (.eval c (.binary .ne a b)) s = r) ↔
+      (∃ n, run n (.eval c (.unary .not (.binary .eq a b))) s = r) := by
+  constructor
+  · rintro ⟨n, h⟩
+    cases n with
+    | zero => subst h; exact absurd hr (by rw [run_zero]; exact not_decided_undecided _ _)
+    | succ k => exact ⟨k + 2, by rw [ne_desugar]; exact h⟩
+  · rintro ⟨n, h⟩
+    refine ⟨n + 1, ?_⟩
+    have hd : Decided (run n (.eval c (.unary .not (.binary .eq a b))) s) := by rw [h]; exact hr
+    rw [← ne_desugar, eval_fuel_mono_le n (n + 2) (by omega) _ s hd, h]
+
+/-- `a[i:j:k]` ≡ `std.slice(a, i, j, k)` (tailstrict call, absent parts `null`, `std` not
+    shadowed): the same computation for every fuel ≥ 2, context and store -/
+theorem slice_desugar (k : Nat) (hk : 1 ≤ k) (c : Ctx) (x : Expr) (a b st : Option Expr)
+    (hstd : lookupEnv c.env "std" = none) :
+    run (k + 1) (.eval c (sliceCall x a b st)) = run (k + 1) (.eval c (.slice x a b st)) :=
+  run_slice_desugar k hk c x a b st hstd
+
+/-- object members `f(ps): e` ≡ `f: function(ps) e`: the same computation for every fuel, context
+    and store (`local f(ps) = e` ≡ `local f = function(ps) e` is `Props.C19.eval_local_sugar`) -/
+theorem method_desugar (fuel : Nat) (c : Ctx) (ls : List Bind) (as : List (Expr × Option Expr))
+    (fs : List Field) :
+    run fuel (.eval c (.obj (.members ls as (fs.map unsugarField))))
+      = run fuel (.eval c (.obj (.members ls as fs))) :=
+  run_obj_method_desugar fuel c ls as fs
+
+end JrsVerif.Eval
